@@ -757,6 +757,7 @@ func generate(rn *runner, r *hx.Rng, thorough bool) {
 		var vt []string
 		itemText(it, &vt)
 		rn.do("enc any " + strings.Join(vt, ","))
+		rn.do("encbuf " + strings.Join(vt, ","))
 		rn.do("any " + h)
 		rn.do("anyp " + h)
 		rn.do("split " + h)
